@@ -1,1 +1,2 @@
 LINK := full
+INCLUDED_SRCS := httprpc.cpp
